@@ -707,16 +707,16 @@ func (h *ResponseHeader) peek(key string) []byte {
 	case consts.HeaderContentType:
 		return h.ContentType()
 	case consts.HeaderContentEncoding:
-		return h.ContentEncoding()
+		return presentOrNil(h.ContentEncoding())
 	case consts.HeaderServer:
-		return h.Server()
+		return presentOrNil(h.Server())
 	case consts.HeaderConnection:
 		if h.ConnectionClose() {
 			return bytestr.StrClose
 		}
 		return peekArgStr(h.h, key)
 	case consts.HeaderContentLength:
-		return h.contentLengthBytes
+		return presentOrNil(h.contentLengthBytes)
 	case consts.HeaderSetCookie:
 		return appendResponseCookieBytes(nil, h.cookies)
 	case consts.HeaderTrailer:
